@@ -9,7 +9,11 @@ linear problem (no Modelica) solved with IPOPT; solver failures are injected thr
 effective outcomes).  Compared with the Lean model: the complete event log (priority_started,
 solver call + outcome, priority_completed, post), the return value of optimize(), the priorities
 attempted, `Goal.is_empty` of every goal, and which results `extract_results()` exposes after the
-run.  The independent oracle re-states the property on the observed log and result objects.
+run.  The independent oracle re-states the property on the observed log and result objects; which goals are
+"empty" is judged from the goal DATA (`spec_empty`: the goal has a target side and no entry of either side is
+finite), never by asking the code (`Goal.is_empty` is only compared, as an observable, with the model, and is
+translated: `isEmptyGen_eq_model`).  Stream `partial`: targets that are all / partly / not at all finite, as 1-D
+and vector Timeseries and numpy vectors, min only / max only / both, alone at their priority and shared.
 """
 import itertools
 import logging
@@ -78,7 +82,8 @@ def make_classes():
     class Lin(CollocatedIntegratedOptimizationProblem):
         """x' = -p x + u + c ;  y = x + q"""
 
-        def __init__(self, times=None, p=0.5, q=1.0, cvals=None, script=(), goal_specs=(), skip=(), **kw):
+        def __init__(self, times=None, p=0.5, q=1.0, cvals=None, script=(), goal_specs=(), skip=(), keep_soft=False, **kw):
+            self._keep_soft = bool(keep_soft)
             self._times = np.array(times, dtype=float)
             self._p, self._q = p, q
             self._cvals = [np.array(cv, dtype=float) for cv in cvals]
@@ -166,6 +171,12 @@ def make_classes():
         def min_abs_path_goals(self):
             return [self._make(s, True) for s in self._specs if s["where"] == "abspath"]
 
+        def goal_programming_options(self):
+            o = super().goal_programming_options()
+            if self._keep_soft:  # needed for vector goals in the multi-pass variant
+                o["keep_soft_constraints"] = True
+            return o
+
         def priority_started(self, priority):
             super().priority_started(priority)
             self.current = priority
@@ -219,38 +230,72 @@ def results_equal(a, b):
 
 
 def build_goal(spec, Goal, MinAbsGoal, Timeseries, times):
+    import casadi as ca
+
     var, where = spec["var"], spec["where"]
+    vs = spec.get("vars") or [var]  # a vector goal (size = len(vars) > 1) stacks several states
     base = MinAbsGoal if where.startswith("abs") else Goal
     if where in ("path", "abspath"):
-        fn = lambda self, pr, m: pr.state(var)  # noqa: E731
+        fn = lambda self, pr, m: ca.vertcat(*[pr.state(v) for v in vs])  # noqa: E731
     else:
         t_at = float(times[spec.get("at", -1)])
-        fn = lambda self, pr, m: pr.state_at(var, t_at, ensemble_member=m)  # noqa: E731
+        fn = lambda self, pr, m: ca.vertcat(*[pr.state_at(v, t_at, ensemble_member=m) for v in vs])  # noqa: E731
     G = type("G_" + var, (base,), {"function": fn})
     g = G()
     g.priority = spec["priority"]
     g.order = spec.get("order", 1)
+    if len(vs) > 1:
+        g.size = len(vs)
 
     def tgt(t):
         if t is None:
             return NAN
         if t[0] == "scalar":
             return t[1]
+        if t[0] == "array":  # plain numpy vector, one entry per component of a vector goal
+            return np.array(t[1], dtype=float)
+        # "series": one value per time step, or (vector path goal) one row of `size` values per time step
         return Timeseries(times, np.array(t[1], dtype=float))
 
-    if spec["tmin"] is not None or spec["tmax"] is not None:
+    if spec_has_side(spec["tmin"]) or spec_has_side(spec["tmax"]):
         g.function_range = (-1000.0, 1000.0)
+    if spec["tmin"] is not None or spec["tmax"] is not None:
         g.target_min = tgt(spec["tmin"])
         g.target_max = tgt(spec["tmax"])
     return g
 
 
+# --- "empty goal", re-stated from the goal's DATA (never through Goal.is_empty / has_target_*) ---
+
+
+def spec_entries(t):
+    """every number a target side holds (an unset side holds the single entry NaN)"""
+    if t is None:
+        return [NAN]
+    if t[0] == "scalar":
+        return [float(t[1])]
+    out = []
+    for x in t[1]:
+        out.extend(float(y) for y in x) if isinstance(x, (list, tuple)) else out.append(float(x))
+    return out
+
+
+def spec_has_side(t):
+    """the side is a target: given as a time series, or holding at least one finite number"""
+    return t is not None and (t[0] == "series" or any(math.isfinite(x) for x in spec_entries(t)))
+
+
+def spec_empty(spec):
+    """a goal is empty iff it has a target side and ALL entries of BOTH target sides are non-finite (NaN / inf)"""
+    if not (spec_has_side(spec["tmin"]) or spec_has_side(spec["tmax"])):
+        return False  # a minimisation goal
+    return not any(math.isfinite(x) for x in spec_entries(spec["tmin"]) + spec_entries(spec["tmax"]))
+
+
 def wire_target(t):
     if t is None:
         return {"series": False, "v": ["nan"]}
-    if t[0] == "scalar":
-        return {"series": False, "v": [fr(t[1])]}
-    return {"series": True, "v": [fr(x) for x in t[1]]}
+    return {"series": t[0] == "series", "v": [fr(x) for x in spec_entries(t)]}
 
 
 def wire_goal(spec):
@@ -264,7 +309,7 @@ def wire_goal(spec):
 def run_impl(case):
     cls = make_classes()[case["variant"]]
     kw = dict(times=case["times"], p=case["p"], q=case["q"], cvals=case["cvals"], script=case["script"],
-              goal_specs=case["goals"], skip=case["skip"])
+              goal_specs=case["goals"], skip=case["skip"], keep_soft=case.get("keep_soft", False))
     pr = cls(**kw)
     # Goal.is_empty as the code sees it (public property), in the order the model receives the goals
     empties = []
@@ -317,11 +362,22 @@ def oracle(c, case, r):
     pr = r["pr"]
     ev = [e for e in pr.events]
     bad = []
-    # expected priorities: ascending distinct int() of non-empty goals
-    expected = sorted({py_int(s["priority"]) for s, e in zip(case["goals"], r["empties"]) if not e})
+    # expected priorities: ascending distinct int() of the non-empty goals -- "empty" judged from the goal's data
+    # (spec_empty: has a target side and no finite entry on either side), NOT by asking the code (Goal.is_empty)
+    nonempty = [not spec_empty(s) for s in case["goals"]]
+    expected = sorted({py_int(s["priority"]) for s, ne in zip(case["goals"], nonempty) if ne})
     started = [e[1] for e in ev if e[0] == "S"]
     if started != expected[:len(started)]:
-        bad.append("priorities attempted %r are not a prefix of the ascending distinct priorities %r" % (started, expected))
+        msg = "priorities attempted %r are not a prefix of the ascending distinct priorities %r of the non-empty goals" \
+            % (started, expected)
+        lost = [p for p in expected[:len(started) + 1] if p not in started]
+        extra = [p for p in started if p not in expected]
+        if lost:
+            gl = [j for j, (s, ne) in enumerate(zip(case["goals"], nonempty)) if ne and py_int(s["priority"]) == lost[0]]
+            msg += "; priority %r (goals %r, with finite target entries / no targets) was never started" % (lost[0], gl)
+        if extra:
+            msg += "; priority %r has only empty goals but was started" % extra[0]
+        bad.append(msg)
     if len(set(started)) != len(started):
         bad.append("a priority was attempted twice")
     single = case["variant"] == "single"
@@ -442,6 +498,15 @@ def check_instances(c, cases, stream):
             c.hit(stream + "/real-solver-failure")
         if any(r["empties"]):
             c.hit(stream + "/has-empty-goal")
+        if "tag" in case:
+            c.hit(stream + "/" + case["tag"].rsplit("/", 1)[0])
+            c.hit(stream + "/shape/" + case["tag"].rsplit("/", 1)[1])
+        for s_ in case["goals"]:
+            ent = [spec_entries(s_[k]) for k in ("tmin", "tmax") if s_[k] is not None and s_[k][0] != "scalar"]
+            if any(any(map(math.isfinite, e)) and not all(map(math.isfinite, e)) for e in ent):
+                alone = sum(1 for o in case["goals"] if int(o["priority"]) == int(s_["priority"]) and not spec_empty(o)) == 1
+                c.hit(stream + "/partly-finite-target/" + ("alone" if alone else "shared"))
+                break
         if case["skip"]:
             c.hit(stream + "/skip-hook")
             for pat in sorted(skip_patterns(ev, case["skip"])):
@@ -453,7 +518,9 @@ def check_instances(c, cases, stream):
         mo = outs[i]
         exp = classify_exposed(pr, r["final"])
         what = None
-        if mo["empty"] != r["empties"]:
+        if mo["empty"] != [spec_empty(s_) for s_ in case["goals"]]:
+            what = "model isEmpty vs emptiness judged from the goal data (harness/model definitions differ)"
+        elif mo["empty"] != r["empties"]:
             what = "Goal.is_empty"
         elif mo["events"] != norm_events(ev):
             what = "event log"
@@ -472,19 +539,67 @@ def check_instances(c, cases, stream):
 # generators
 
 
-def gen_target(rng, nt, force=None):
-    kind = force or rng.choice(["none", "none", "scalar", "series", "series-nan", "series-allnan"])
+def gen_target(rng, nt, force=None, side="min"):
+    kind = force or rng.choice(["none", "none", "scalar", "series", "series-nan", "series-allnan", "series-inf"])
+    off = rng.choice([NAN, NAN, -math.inf if side == "min" else math.inf])  # a step without a bound
     if kind == "none":
         return None
     if kind == "scalar":
         return ("scalar", float(rng.choice([1.0, 2.0, 3.0, 4.0, 0.5])))
     if kind == "series":
         return ("series", [float(rng.choice([1.0, 2.0, 3.0])) for _ in range(nt)])
-    if kind == "series-nan":
-        v = [float(rng.choice([1.0, 2.0, 3.0])) if rng.random() < 0.5 else NAN for _ in range(nt)]
-        v[rng.randrange(nt)] = 2.0
+    if kind in ("series-nan", "series-inf"):
+        if kind == "series-nan":
+            off = NAN
+        v = [float(rng.choice([1.0, 2.0, 3.0])) if rng.random() < 0.5 else off for _ in range(nt)]
+        i = rng.randrange(nt)
+        v[i] = 2.0
+        v[(i + 1) % nt] = off  # at least one finite AND at least one non-finite entry
         return ("series", v)
+    if kind == "series-allinf":
+        return ("series", [rng.choice([NAN, off]) for _ in range(nt)])
     return ("series", [NAN] * nt)
+
+
+def fill_entries(rng, n, fin, side):
+    """n numbers for one target side: fin = 'all' (all finite) / 'some' (>= 1 finite and >= 1 non-finite) / 'none'"""
+    lo = side == "min"
+    val = lambda: float(rng.choice([1.0, 2.0, 3.0] if lo else [5.0, 6.0, 7.0]))  # noqa: E731
+    off = lambda: rng.choice([NAN, NAN, -math.inf if lo else math.inf])  # noqa: E731
+    if fin == "all":
+        return [val() for _ in range(n)]
+    if fin == "none":
+        return [off() for _ in range(n)]
+    v = [val() if rng.random() < 0.5 else off() for _ in range(n)]
+    i = rng.randrange(n)
+    v[i], v[(i + 1 + rng.randrange(n - 1)) % n] = val(), off()
+    return v
+
+
+SHAPES = ("path-series", "path-vector-series", "path-vector-array", "point-vector-array")
+
+
+def shaped_target(rng, nt, shape, fin, side):
+    """a Timeseries (1-D, or one row per time step for a vector goal) or a plain numpy vector, partly finite"""
+    if fin is None:
+        return None
+    if shape == "path-series":
+        return ("series", fill_entries(rng, nt, fin, side))
+    if shape == "path-vector-series":
+        flat = fill_entries(rng, 2 * nt, fin, side)
+        return ("series", [flat[2 * i:2 * i + 2] for i in range(nt)])
+    return ("array", fill_entries(rng, 2, fin, side))
+
+
+def shaped_goal(rng, nt, shape, fmin, fmax, priority):
+    spec = dict(var=rng.choice(["x", "y"]), where="point" if shape.startswith("point") else "path", priority=priority,
+                order=rng.choice([1, 2]), tmin=shaped_target(rng, nt, shape, fmin, "min"),
+                tmax=shaped_target(rng, nt, shape, fmax, "max"))
+    if "vector" in shape:
+        spec.update(var="xy", vars=["x", "y"])
+    if spec["where"] == "point":
+        spec["at"] = rng.randrange(1, nt)
+    return spec
 
 
 def gen_priority(rng, pool):
@@ -502,6 +617,12 @@ def gen_priority(rng, pool):
 
 
 def gen_goal(rng, nt, pool, variant):
+    if rng.random() < 0.12:  # partly / not at all finite targets of every shape, also vector goals
+        fins = [None, "all", "some", "some", "none"]
+        fmin, fmax = rng.choice(fins), rng.choice(fins)
+        if fmin is None and fmax is None:
+            fmax = "some"
+        return shaped_goal(rng, nt, rng.choice(SHAPES), fmin, fmax, gen_priority(rng, pool))
     where = rng.choice(["path", "path", "path", "point"])
     if variant == "minabs" and rng.random() < 0.4:
         where = rng.choice(["abspath", "absgoal"])
@@ -525,8 +646,9 @@ def gen_goal(rng, nt, pool, variant):
             if rng.random() < 0.3:
                 spec["tmin"], spec["tmax"] = spec["tmax"], spec["tmin"]
         else:
-            lo = gen_target(rng, nt, rng.choice(["scalar", "series", "series-nan", "series-allnan", "none"]))
-            hi = gen_target(rng, nt, rng.choice(["scalar", "series", "series-nan", "series-allnan", "none"]))
+            kinds = ["scalar", "series", "series-nan", "series-inf", "series-allnan", "series-allinf", "none"]
+            lo = gen_target(rng, nt, rng.choice(kinds), "min")
+            hi = gen_target(rng, nt, rng.choice(kinds), "max")
             if hi is not None:  # keep max above min
                 hi = (hi[0], hi[1] + 4.0) if hi[0] == "scalar" else (hi[0], [x + 4.0 for x in hi[1]])
             spec.update(tmin=lo, tmax=hi)
@@ -560,7 +682,43 @@ def gen_case(rng, variant=None, nprio=None, script=None):
         skip = rng.sample(prios, rng.randint(1, min(2, len(prios))))
     return dict(variant=variant, times=times, p=rng.choice([0.25, 0.5, 1.0]), q=rng.choice([0.0, 1.0]),
                 cvals=[[rng.choice([0.0, 0.5, 1.0]) for _ in times] for _ in range(members)],
-                goals=goals, script=list(script), skip=skip)
+                goals=goals, script=list(script), skip=skip, keep_soft=any(len(g.get("vars") or []) > 1 for g in goals))
+
+
+def stream_partial(c, rng, big):
+    """the goal whose targets are only PARTLY finite (or not at all): min only / max only / both sides x all / some /
+    no entries finite, as 1-D Timeseries, vector-goal Timeseries, numpy vectors (path and point), ALONE at its
+    priority (its emptiness decides whether the priority exists) and SHARED with another goal; between a lower
+    and a higher priority of plain minimisation goals, under success / failure-at-it / failure-after-it scripts"""
+    fins = [None, "all", "some", "none"]
+    combos = [(a, b) for a in fins for b in fins if (a, b) != (None, None)]
+    cases = []
+    k = 0
+    for fmin, fmax in combos:
+        for placement in ("alone", "shared"):
+            for shape in (SHAPES if big else [SHAPES[(k + j) % len(SHAPES)] for j in (0, 1)]):
+                for variant in (("multi", "single", "minabs") if big else (("multi", "single")[k % 2],)):
+                    k += 1
+                    nt = rng.choice([3, 4])
+                    times = [0.0] + list(np.cumsum([rng.choice([0.5, 1.0, 2.0]) for _ in range(nt - 1)]))
+                    plo, pmid, phi = sorted(rng.sample([-7, -3, -1, 0, 1, 2, 3, 5, 10, 100], 3))
+                    goals = [dict(var="u", where="path", priority=plo, order=2, tmin=None, tmax=None),
+                             shaped_goal(rng, nt, shape, fmin, fmax, gen_priority(rng, [pmid])),
+                             dict(var="x", where="path", priority=phi, order=2, tmin=None, tmax=None)]
+                    if abs(int(goals[1]["priority"])) != abs(pmid):
+                        goals[1]["priority"] = pmid
+                    if placement == "shared":
+                        goals.insert(rng.randrange(4), dict(var="y", where="path", priority=pmid, order=2, tmin=None, tmax=None))
+                    rng.shuffle(goals)
+                    scripts = [[True] * 3, [True, False, True], [True, True, False]]
+                    for script in (scripts if big else [rng.choice(scripts + scripts[:1])]):
+                        cases.append(dict(variant=variant, times=times, p=rng.choice([0.25, 0.5, 1.0]), q=rng.choice([0.0, 1.0]),
+                                          cvals=[[rng.choice([0.0, 0.5, 1.0]) for _ in times] for _ in range(rng.choice([1, 1, 2]))],
+                                          goals=goals, script=script, skip=[],
+                                          tag="min:%s,max:%s/%s/%s" % (fmin, fmax, placement, shape),
+                                          keep_soft=any(len(g.get("vars") or []) > 1 for g in goals)))
+    check_instances(c, cases, "partial")
+    return len(cases)
 
 
 CORPUS = [
@@ -598,7 +756,8 @@ def run_seq_impl(case):
     from rtctools.optimization.timeseries import Timeseries
 
     cls = make_classes()[case["variant"]]
-    pr = cls(times=case["times"], p=case["p"], q=case["q"], cvals=case["cvals"], script=[], goal_specs=[], skip=[])
+    pr = cls(times=case["times"], p=case["p"], q=case["q"], cvals=case["cvals"], script=[], goal_specs=[], skip=[],
+             keep_soft=case.get("keep_soft", False))
     out = []
     for run in case["runs"]:
         pr.events, pr.current, pr.real_fail, pr.snap, pr.raw, pr.started_view = [], None, 0, {}, [], []
@@ -826,7 +985,9 @@ def run(c):
     c.rule = (
         "real GoalProgrammingMixin / SinglePassGoalProgrammingMixin / MinAbs+GoalProgrammingMixin on a synthetic linear "
         "problem (1-2 members, 3-4 time steps, IPOPT) with 1-8 goals: path/point minimisation goals, target goals with "
-        "scalar / Timeseries / partly-NaN / all-NaN (= empty) targets, priorities from {-7..100} as int, float, "
+        "scalar / Timeseries / numpy-vector targets (vector goals: keep_soft_constraints) whose entries are all / partly / "
+        "not at all finite (NaN, -inf below, +inf above; all non-finite Timeseries = empty goal), min only / max only / both, "
+        "alone at their priority and shared; priorities from {-7..100} as int, float, "
         "non-integral float (int() truncation), numpy scalars, duplicates and gaps; scripted solver outcomes (effective "
         "= script AND real); skip_priority set in priority_started; exhaustive over all success/failure scripts for "
         "n priorities.  distinct = (stream, variant, priority multiset, is_empty pattern, effective outcomes, skips, return value)"
@@ -860,6 +1021,10 @@ def run(c):
         ns += stream_skip(c, rng, (3,), ("single",), sample=10)
     c.notes.append("skip_priority stream: every non-empty set of removed priorities x every script over the remaining "
                    "ones (%d runs; complete for n <= %d priorities in the multi-pass variant); " % (ns, 5 if c.big else 4))
+    npart = stream_partial(c, rng, c.big)
+    c.notes.append("partial-target stream: %d runs with a goal whose target sides are all / partly / not at all finite "
+                   "(NaN, -inf below, +inf above; 1-D and vector Timeseries, numpy vectors; path and point goals), alone at "
+                   "its priority and shared; emptiness is judged from the goal data, never via Goal.is_empty; " % npart)
     nq = stream_sequences(c, rng, c.big)
     c.notes.append("sequence stream: %d instances optimized 2-3 times with independent scripts/skip sets per call "
                    "(all pairs of scripts for n <= %d priorities, both variants, plus sampled longer ones); " % (nq, 3 if c.big else 2))
@@ -874,15 +1039,19 @@ def replay(c, rp):
 
     c.prove(extra=gen_priority_loop(c))  # + the two priority loops translated from the source on every run
     cases = []
-    for f in rp.get("failures", []) + rp.get("correspondence_disagreements", []):
+    for f in rp.get("failures", []) + rp.get("disagreements", []) + rp.get("correspondence_disagreements", []):
         case = f.get("case") or {}
         if "goals" in case and "variant" in case:
             cs = {k: case[k] for k in ("variant", "times", "p", "q", "cvals", "goals", "script", "skip")}
+            cs["keep_soft"] = bool(case.get("keep_soft", False))
+
+            def num(v):
+                return [num(x) for x in v] if isinstance(v, (list, tuple)) else float(v)
+
             for g in cs["goals"]:
                 for k in ("tmin", "tmax"):
                     if g[k] is not None:
-                        v = g[k][1]
-                        g[k] = (g[k][0], [float(x) for x in v] if isinstance(v, list) else float(v))
+                        g[k] = (g[k][0], num(g[k][1]))
             cases.append(cs)
             print("replaying", f["what"])
     check_instances(c, [dict(x) for x in CORPUS] + cases, "replay")
